@@ -10,6 +10,7 @@ import (
 	"runtime"
 	"strings"
 	"testing"
+	"time"
 
 	connect "github.com/bufbuild/connect-go"
 
@@ -326,6 +327,180 @@ func c19Cases(thorough bool) []c19Case {
 	return out
 }
 
+// c19Overlap: two calls of the same procedure overlap on one handler: X is
+// parked inside user code while Y runs to completion (normally, or with a
+// panic of its own), then X panics.  Each panic must reach the recovery
+// function exactly once with its own value and each client must receive the
+// error returned for its own panic.
+func c19Overlap(t *testing.T, c *ev.Collector) {
+	idx := 0
+	for _, p := range AllProtos {
+		for _, kind := range AllKinds {
+			for _, yPanics := range []bool{false, true} {
+				idx++
+				if !ev.Mine(idx) {
+					continue
+				}
+				key := fmt.Sprintf("overlap/%s/%s/y-panics=%v", p, kind, yPanics)
+				c.Case(key, true)
+				Bubble(t, func() {
+					var recovered []any
+					release := make(chan struct{})
+					parked := make(chan struct{})
+					h := NewHandler(kind, func(ctx context.Context, s HStream) error {
+						who := s.RequestHeader().Get("X-Call")
+						if who == "x" {
+							close(parked)
+							<-release
+							panic("boom x")
+						}
+						if yPanics {
+							panic("boom y")
+						}
+						for {
+							if _, err := s.Receive(); err != nil {
+								break
+							}
+						}
+						return s.Send(&BV{Value: []byte{'y'}})
+					}, connect.WithRecover(func(ctx context.Context, spec connect.Spec, hdr http.Header, r any) error {
+						recovered = append(recovered, r)
+						return connect.NewError(connect.CodeDataLoss, fmt.Errorf("recovered %v", r))
+					}))
+					tr := &memhttp.Transport{Handler: h, Proto: 2, SyncCloseReq: true}
+					cl := NewClient(tr, Cfg{Proto: p, Comp: CompNone})
+					var resX, resY CallResult
+					gx := make(chan struct{})
+					g := Guarded(func() {
+						go func() {
+							defer close(gx)
+							resX = RunCall(context.Background(), cl, kind, [][]byte{{1}}, http.Header{"X-Call": {"x"}})
+						}()
+						<-parked
+						resY = RunCall(context.Background(), cl, kind, [][]byte{{2}}, http.Header{"X-Call": {"y"}})
+						close(release)
+						<-gx
+					}, tr)
+					c.AddTransitions(8)
+					c.AddStates(8)
+					c.AddTraces(2)
+					tags := []string{"proto=" + p.String(), "kind=" + kind.String(), "overlapping-calls"}
+					viol := func(clause, outcome, format string, args ...any) {
+						c.Violation("TestC19", clause, outcome, tags, key, "%s: "+format, append([]any{key}, args...)...)
+					}
+					if g.Hung || g.Panicked {
+						viol("terminates", "hang-or-client-panic", "hung=%v panic=%v\n%s", g.Hung, g.Panic, g.Stack)
+						c.Outcome("violation")
+						BailIfStuck(c, g)
+						return
+					}
+					bad := false
+					wantRec := []any{"boom x"}
+					if yPanics {
+						wantRec = []any{"boom y", "boom x"}
+					}
+					if fmt.Sprint(recovered) != fmt.Sprint(wantRec) {
+						bad = true
+						viol("recovered-once", fmt.Sprintf("calls=%d", len(recovered)), "recovery function received %v, want %v (escaped ServeHTTP: %v)", recovered, wantRec, func() any {
+							if ex := tr.Last(); ex != nil && ex.Panicked {
+								return ex.Panic
+							}
+							return nil
+						}())
+					}
+					var ce *connect.Error
+					if resX.Err == nil || !errors.As(resX.Err, &ce) || ce.Code() != connect.CodeDataLoss || ce.Message() != "recovered boom x" {
+						bad = true
+						viol("client-gets-recovery-error", "wrong-error", "the panicking call's client received %v; want data_loss: recovered boom x", resX.Err)
+					}
+					if yPanics {
+						if resY.Err == nil || !errors.As(resY.Err, &ce) || ce.Message() != "recovered boom y" {
+							bad = true
+							viol("client-gets-recovery-error", "wrong-error", "call y's client received %v; want data_loss: recovered boom y", resY.Err)
+						}
+					} else if resY.Err != nil || len(resY.Msgs) != 1 {
+						bad = true
+						viol("non-panicking-unaffected", "differs", "the call that did not panic observed %s", obsString(resY))
+					}
+					if bad {
+						c.Outcome("violation")
+					} else {
+						c.Outcome("ok")
+					}
+				})
+			}
+		}
+	}
+}
+
+// c19AfterCtxEnd: the handler panics after its context has ended (the client
+// went away / the deadline passed): the recovery function is still called
+// exactly once with the value.
+func c19AfterCtxEnd(t *testing.T, c *ev.Collector) {
+	idx := 0
+	for _, p := range AllProtos {
+		for _, kind := range AllKinds {
+			for _, how := range []string{"client-cancel", "client-deadline"} {
+				idx++
+				if !ev.Mine(idx) {
+					continue
+				}
+				key := fmt.Sprintf("panic-after-ctx-end/%s/%s/%s", p, kind, how)
+				c.Case(key, true)
+				Bubble(t, func() {
+					var recovered []any
+					arrived := make(chan struct{})
+					h := NewHandler(kind, func(ctx context.Context, s HStream) error {
+						close(arrived)
+						<-ctx.Done()
+						panic("late boom")
+					}, connect.WithRecover(func(ctx context.Context, spec connect.Spec, hdr http.Header, r any) error {
+						recovered = append(recovered, r)
+						return connect.NewError(connect.CodeDataLoss, errors.New("recovered late"))
+					}))
+					tr := &memhttp.Transport{Handler: h, Proto: 2, SyncCloseReq: true}
+					cl := NewClient(tr, Cfg{Proto: p, Comp: CompNone})
+					ctx, cancel := context.WithCancel(context.Background())
+					if how == "client-deadline" {
+						ctx, cancel = context.WithTimeout(context.Background(), 2*time.Second)
+					}
+					defer cancel()
+					g := GuardedFor(time.Hour, func() {
+						if how == "client-cancel" {
+							go func() { <-arrived; cancel() }()
+						}
+						_ = RunCall(ctx, cl, kind, [][]byte{{1}}, nil)
+						// the handler may outlive the call: wait for it
+						for ex := tr.Last(); ex != nil && !ex.IsDone(); {
+							time.Sleep(time.Millisecond)
+						}
+					}, tr)
+					c.AddTransitions(4)
+					c.AddStates(4)
+					c.AddTraces(1)
+					tags := []string{"proto=" + p.String(), "kind=" + kind.String(), "panic-after-context-ended"}
+					if g.Hung || g.Panicked {
+						c.Violation("TestC19", "terminates", "hang-or-client-panic", tags, key, "%s: hung=%v panic=%v\n%s", key, g.Hung, g.Panic, g.Stack)
+						c.Outcome("violation")
+						BailIfStuck(c, g)
+						return
+					}
+					escaped := false
+					if ex := tr.Last(); ex != nil {
+						escaped = ex.Panicked
+					}
+					if len(recovered) != 1 || recovered[0] != "late boom" || escaped {
+						c.Violation("TestC19", "recovered-once", fmt.Sprintf("calls=%d", len(recovered)), tags, key, "%s: recovery function received %v (escaped ServeHTTP: %v); want exactly one call with \"late boom\"", key, recovered, escaped)
+						c.Outcome("violation")
+						return
+					}
+					c.Outcome("ok")
+				})
+			}
+		}
+	}
+}
+
 func TestC19(t *testing.T) {
 	c := ev.New("C19")
 	defer func() { _ = c.Finish() }()
@@ -339,6 +514,8 @@ func TestC19(t *testing.T) {
 		Bubble(t, func() { c19Check(c, k) })
 		return
 	}
+	c19Overlap(t, c)
+	c19AfterCtxEnd(t, c)
 	cases := c19Cases(ev.Thorough())
 	for i, k := range cases {
 		if !ev.Mine(i) {
